@@ -1051,6 +1051,355 @@ def judge_front(emu, c, obs, m, res):
     return False
 
 
+# ---- round 2: Process._get_ident / __eq__ / _send_signal / send_signal — the REAL front end over the REAL platform
+# ---- module and the scripted native layer (no FakeProc except for `status()` inside __eq__)
+
+INIT_NO_FAULT = NO_FAULT | {"check_pid_range"}     # pid range check: not a per-process query, raises OverflowError only
+SIG_METHODS = ["send_signal", "terminate", "kill", "suspend", "resume"]
+EQ_IDENTS_1 = [(42, 1110), (42, 0), (42, None)]
+EQ_IDENTS_2 = [(42, 1110), (42, 0), (42, None), (43, None), (42, 2220)]
+EQ_STATUS = ["zombie", "running", "zombieExc", "error", "error2"]
+
+
+def _mk_proc(emu, pid, ignore=False):
+    pkg = emu.pkg
+    if not ignore:
+        return pkg.Process(pid)
+    p = pkg.Process.__new__(pkg.Process)
+    p._init(pid, _ignore_nsp=True)
+    return p
+
+
+def _init_obs(emu, pid, ignore, world):
+    def call():
+        p = _mk_proc(emu, pid, ignore)
+        return [list(p._ident), p._create_time, p._gone]
+    obs, tr = emu.call(call, world=world)
+    return obs, list(tr)
+
+
+def front2_cases(emu, tier):
+    ident = emu.ident
+    base = {"kind": "front3", "ident": ident}
+    # --- identity
+    for pid in PIDS:
+        obs0, tr0 = _init_obs(emu, pid, False, E.World(emu, pid))
+        ct = obs0["value"][1] if obs0["kind"] == "value" else None
+        for ign in (False, True):
+            yield dict(base, fn="ident", pid=pid, ignore=ign, call=None, ct=ct, k=None)
+        for k, call in enumerate(tr0):
+            if call in INIT_NO_FAULT:
+                continue
+            for ename, eno, win in swept_errs(emu):
+                for state, zcode in world_states(emu):
+                    for pid0 in ((True, False) if pid == 0 else (True,)):
+                        for ign in (False, True):
+                            yield dict(base, fn="ident", pid=pid, ignore=ign, call=call, k=k, ct=ct, errno=ename,
+                                       winerror=win, state=state, zcode=zcode, pid0=pid0)
+    # --- equality
+    for i1 in EQ_IDENTS_1:
+        for i2 in EQ_IDENTS_2:
+            for st in EQ_STATUS:
+                yield dict(base, fn="eq", i1=list(i1), i2=list(i2), st=st)
+    # --- signals
+    if not emu.windows:
+        for meth in SIG_METHODS:
+            yield dict(base, fn="sigposix", meth=meth, pid=0, kill="ok", state="alive", zcode=None)
+            for kill in ["ok"] + [e for e, _ in ERRNOS]:
+                for state, zcode in world_states(emu):
+                    yield dict(base, fn="sigposix", meth=meth, pid=42, kill=kill, state=state, zcode=zcode)
+    else:
+        for via, sig in (("send_signal", "SIGTERM"), ("send_signal", "CTRL_C_EVENT"), ("send_signal", "CTRL_BREAK_EVENT"),
+                         ("send_signal", "other"), ("terminate", "SIGTERM"), ("kill", "SIGTERM")):
+            yield dict(base, fn="sigwin", via=via, sig=sig, running=True, errno=None)
+            if via == "send_signal" and sig != "SIGTERM":
+                yield dict(base, fn="sigwin", via=via, sig=sig, running=False, errno=None)
+            if sig != "other":
+                for ename, eno, win in swept_errs(emu):
+                    for state in ("gone", "alive"):
+                        yield dict(base, fn="sigwin", via=via, sig=sig, running=True, errno=ename, winerror=win, state=state)
+
+
+def _sig_value(emu, name):
+    import signal as _sig
+    if name == "SIGTERM":
+        return _sig.SIGTERM
+    if name == "CTRL_C_EVENT":
+        return E.SignalProxy.CTRL_C_EVENT
+    if name == "CTRL_BREAK_EVENT":
+        return E.SignalProxy.CTRL_BREAK_EVENT
+    return _sig.SIGINT
+
+
+def _exc_outcome(obs):
+    """front-end exception → vocabulary of the model (named = carries the cached name [and ppid])"""
+    o = impl_outcome(obs)
+    return o
+
+
+def run_front2(emu, c):
+    """→ (observable, driver line)"""
+    pkg, common = emu.pkg, emu.common
+    fn = c["fn"]
+    line = {"op": "front2", "fn": fn}
+    if fn == "ident":
+        line.update(plat=c["ident"], ignore=c["ignore"], ct=int(c["ct"] or 0), call=c["call"])
+        if c["call"] is None:
+            obs, _ = _init_obs(emu, c["pid"], c["ignore"], E.World(emu, c["pid"]))
+            return obs, line
+        w = E.World(emu, c["pid"], c["k"], (dict(ERRNOS)[c["errno"]], c["winerror"]), c["state"], c["pid0"], zcode=c["zcode"])
+        obs, tr = _init_obs(emu, c["pid"], c["ignore"], w)
+        if len(tr) <= c["k"] or tr[c["k"]] != c["call"]:
+            obs = {"kind": "trace-drift", "trace": tr[:8]}
+        line.update(errno=c["errno"], winerror=c["winerror"], state=c["state"], pid=c["pid"], zcode=c["zcode"],
+                    pid0=model_pid0(c["ident"], c["pid"], c["state"], c["pid0"]))
+        return obs, line
+    if fn == "eq":
+        st = c["st"]
+        ans = {"zombie": common.STATUS_ZOMBIE, "running": common.STATUS_RUNNING, "zombieExc": common.ZombieProcess(42),
+               "error": common.NoSuchProcess(42), "error2": common.AccessDenied(42)}[st]
+
+        def call():
+            p1, p2 = pkg.Process(42), pkg.Process(42)
+            p1._proc = FakeProc(status=ans)
+            p2._proc = FakeProc(status=common.STATUS_RUNNING)
+            p1._ident = (c["i1"][0], None if c["i1"][1] is None else float(c["i1"][1]))
+            p2._ident = (c["i2"][0], None if c["i2"][1] is None else float(c["i2"][1]))
+            return [p1 == p2, p1 != p2]
+        obs, _ = emu.call(call)
+        line.update(obn=c["ident"] in ("openbsd", "netbsd"), i1={"pid": c["i1"][0], "ctime": c["i1"][1]},
+                    i2={"pid": c["i2"][0], "ctime": c["i2"][1]}, st="error" if st == "error2" else st)
+        return obs, line
+    if fn == "sigposix":
+        import signal as _sig
+        pid = c["pid"]
+        saved_os = pkg.os
+        # what pid_exists() says once the world is in the case's state
+        wx = E.World(emu, pid, state=c["state"], zcode=c["zcode"])
+        wx.switched = True
+        ex_obs, _ = emu.call(lambda: pkg.pid_exists(pid), world=wx)
+        exists = bool(ex_obs.get("value")) if ex_obs["kind"] == "value" else False
+
+        def mk_call(world_holder):
+            def call():
+                p = pkg.Process(pid)
+                p._name, p._ppid = CACHED_NAME, CACHED_PPID
+                p._proc._name, p._proc._ppid = CACHED_NAME, CACHED_PPID      # as the front-end name() / ppid() leave them
+                world_holder["base"] = len(emu.world.trace)
+                try:
+                    r = p.send_signal(_sig.SIGTERM) if c["meth"] == "send_signal" else getattr(p, c["meth"])()
+                    return ["sent", r, p._gone]
+                except BaseException as e:  # noqa: BLE001
+                    o = impl_outcome(E.canon_exc(e, emu))
+                    o["gone"] = p._gone
+                    o["tail"] = emu.world.trace[world_holder["base"]:][-1:] if False else None
+                    return ["exc", o]
+            return call
+        try:
+            pkg.os = emu.osproxy
+            h0 = {}
+            obs0, tr0 = emu.call(mk_call(h0), world=E.World(emu, pid))
+            k = max([i for i, n in enumerate(tr0) if n == "os.kill"], default=None)
+            if c["kill"] == "ok" or k is None:
+                obs = obs0
+            else:
+                w = E.World(emu, pid, k, (dict(ERRNOS)[c["kill"]], None), c["state"], True, zcode=c["zcode"])
+                obs, tr = emu.call(mk_call({}), world=w)
+                if len(tr) <= k or tr[k] != "os.kill":
+                    obs = {"kind": "trace-drift", "trace": tr[:10]}
+        finally:
+            pkg.os = saved_os
+        line.update(openbsd=c["ident"] == "openbsd", pid=pid, exists=exists, kill=c["kill"])
+        return obs, line
+    if fn == "sigwin":
+        pid = 42
+
+        def mk_call(holder):
+            def call():
+                p = pkg.Process(pid)
+                p._name, p._ppid = CACHED_NAME, CACHED_PPID
+                p._proc._name, p._proc._ppid = CACHED_NAME, CACHED_PPID      # as the front-end name() / ppid() leave them
+                holder["base"] = len(emu.world.trace)
+                try:
+                    if c["via"] == "send_signal":
+                        p.send_signal(_sig_value(emu, c["sig"]))
+                    else:
+                        getattr(p, c["via"])()
+                    return ["done"]
+                except BaseException as e:  # noqa: BLE001
+                    return ["exc", impl_outcome(E.canon_exc(e, emu)), type(e).__name__, str(getattr(e, "msg", ""))[:60]]
+            return call
+        h0 = {}
+        obs0, tr0 = emu.call(mk_call(h0), world=E.World(emu, pid))
+        tail0 = tr0[h0.get("base", 0):]
+        obs, tail = obs0, tail0
+        if not c["running"]:
+            # the second is_running() of send_signal finds the process gone: its identity query says "no such process"
+            idx = [h0["base"] + i for i, n in enumerate(tail0) if n == "proc_times"]
+            if len(idx) >= 2:
+                h = {}
+                w = E.World(emu, pid, idx[1], (errno.ESRCH, None), "gone", True)
+                obs, tr = emu.call(mk_call(h), world=w)
+                tail = tr[h.get("base", 0):]
+            else:
+                obs = {"kind": "trace-drift", "trace": tail0}
+        elif c.get("errno"):
+            prim = [h0["base"] + i for i, n in enumerate(tail0) if n in ("proc_kill", "os.kill")]
+            if prim:
+                h = {}
+                w = E.World(emu, pid, prim[-1], (dict(ERRNOS)[c["errno"]], c["winerror"]), c["state"], True)
+                obs, tr = emu.call(mk_call(h), world=w)
+                tail = tr[h.get("base", 0):]
+            else:
+                obs = {"kind": "trace-drift", "trace": tail0}
+        if obs.get("kind") == "value":
+            obs = {"kind": "value", "value": obs["value"], "prims": [n for n in tail if n in ("proc_kill", "os.kill")]}
+        line.update(via=c["via"], sig=c["sig"], running=c["running"], errno=c.get("errno"), winerror=c.get("winerror"),
+                    state=c.get("state"), pid=pid)
+        return obs, line
+    raise InfraError("unknown front3 case %r" % (c,))
+
+
+def front2_expect(emu, c, side, which):
+    """the observable run_front2 must show if `side` (the driver's model / spec answer) is right"""
+    fn = c["fn"]
+    if fn == "ident":
+        k = side["k"]
+        if k == "built":
+            ct = c["ct"]
+            return {"kind": "value", "value": [[c["pid"], None if side["ident"] is None else ct],
+                                               None if side["cache"] is None else ct, side["gone"]]}
+        if k == "nsp-not-found":
+            return {"kind": "exc", "exc": "NoSuchProcess", "psutil": True, "pid": c["pid"], "name": None}
+        if k == "raw":
+            return {"kind": "exc", "exc": py_class_of(side["errno"]), "errno": dict(ERRNOS)[side["errno"]], "winerror": side["winerror"]}
+        return {"kind": "unmodelled"}
+    if fn == "eq":
+        return {"kind": "value", "value": [side["ret"], not side["ret"]]}
+    if fn == "sigposix":
+        r = side["res"]
+        if r["k"] == "sent":
+            return {"kind": "value", "value": ["sent", None, False]}
+        if r["k"] == "ValueError":
+            return {"kind": "value", "value": ["exc", {"k": "exc:ValueError"}]}
+        o = {"k": r["k"]}
+        if r["k"] == "raw":
+            o.update(errno=r["errno"], winerror=r["winerror"])
+        else:
+            o.update(pid=c["pid"], named=r["named"])
+        if "gone" in side:
+            o["gone"] = side["gone"]
+        return {"kind": "value", "value": ["exc", o]}
+    if fn == "sigwin":
+        act = side["act"]
+        if act == "ValueError":
+            return {"act": "ValueError"}
+        if act == "nsp-not-running":
+            return {"act": "nsp-not-running"}
+        if "o" in side and c.get("errno"):
+            return {"act": act, "o": side["o"]}
+        return {"act": act}
+    return None
+
+
+def _uncanon(v):
+    """undo E.canon for the dicts the front3 closures return"""
+    if isinstance(v, dict) and set(v) == {"dict"}:
+        return {k: _uncanon(x) for k, x in v["dict"]}
+    if isinstance(v, dict):
+        return {k: _uncanon(x) for k, x in v.items()}
+    if isinstance(v, list):
+        return [_uncanon(x) for x in v]
+    return v
+
+
+def _norm_front2(emu, c, obs):
+    """bring the observable into the shape front2_expect describes"""
+    fn = c["fn"]
+    obs = _uncanon(obs)
+    if fn == "ident" and obs.get("kind") == "exc":
+        o = {k: v for k, v in obs.items() if k in ("kind", "exc", "psutil", "pid", "name", "errno", "winerror")}
+        return o
+    if fn == "sigposix" and obs.get("kind") == "value" and obs["value"] and obs["value"][0] == "exc":
+        o = dict(obs["value"][1])
+        keep = {k: o[k] for k in ("k", "pid", "named", "errno", "winerror", "gone") if k in o}
+        if str(o.get("k", "")).startswith("exc:"):
+            keep = {"k": o["k"]}
+        return {"kind": "value", "value": ["exc", keep]}
+    if fn == "sigwin":
+        if obs.get("kind") != "value":
+            return obs
+        v = obs["value"]
+        if v[0] == "done":
+            return {"act": (obs.get("prims") or ["?"])[-1]}
+        o, cls, msg = v[1], v[2], v[3]
+        if cls == "ValueError":
+            return {"act": "ValueError"}
+        if cls == "NoSuchProcess" and "no longer exists" in msg and not obs.get("prims"):
+            return {"act": "nsp-not-running"}
+        out = {"act": (obs.get("prims") or ["?"])[-1], "o": {k: o.get(k) for k in ("k", "pid", "named", "errno", "winerror") if k in o}}
+        return out
+    return obs
+
+
+def judge_front2(emu, c, obs, m, res):
+    if "bad" in m:
+        raise InfraError("driver rejected front2 query: %s" % m)
+    got = _norm_front2(emu, c, obs)
+    for which in ("spec", "model"):
+        want = front2_expect(emu, c, m[which], which)
+        g = got
+        if c["fn"] == "sigposix" and which == "spec" and isinstance(g.get("value"), list) and g["value"][0] == "exc":
+            g = {"kind": "value", "value": ["exc", {k: v for k, v in g["value"][1].items() if k != "gone"}]}
+        if c["fn"] == "sigwin" and isinstance(want, dict) and "o" in want and isinstance(g, dict) and "o" in g:
+            same = g.get("act") == want.get("act") and same_outcome(g["o"], want["o"])
+        else:
+            same = g == want
+        if not same:
+            res.disagree(which, c, obs, front2_expect(emu, c, m["model"], "model"), front2_expect(emu, c, m["spec"], "spec"),
+                         note="%s front end %s: result differs from the %s" % (emu.ident, c["fn"], which))
+            return True
+    return False
+
+
+# ---- documented namedtuple fields
+
+
+def judge_api_fields(emu, m, res):
+    bad = False
+    gen_actual = {a["nt"]: a["fields"] for a in m["actual"]}
+    for nt, fl in gen_actual.items():
+        live = T.actual_fields(emu, nt)
+        if live != fl:
+            res.disagree("model", {"kind": "apifields", "ident": emu.ident, "nt": nt}, live, fl, None,
+                         note="generated `actualFields` differs from the live namedtuple")
+            bad = True
+    for row in m["documented"]:
+        live = T.actual_fields(emu, row["nt"]) or []
+        for f in row["fields"]:
+            res.count("family:api-fields")
+            if f not in live and f not in row["gaps"]:
+                res.disagree("spec", {"kind": "apifield", "ident": emu.ident, "api": row["api"], "nt": row["nt"], "field": f},
+                             {"fields": live}, None, {"documented": row["fields"]},
+                             note="field documented for %s is not in the namedtuple %s of the package imported as %s"
+                             % (emu.ident, row["nt"], emu.ident))
+                bad = True
+        # the REAL method under emulation hands back that very type
+        if row["api"].startswith("Process.") and row["api"].split(".", 1)[1] in emu.process_methods():
+            obs, _ = emu.run(row["api"].split(".", 1)[1], pid=42)
+            v = obs.get("value")
+            if isinstance(v, list) and v:
+                v = v[0]
+            if obs["kind"] == "value" and isinstance(v, dict) and v.get("nt") == row["nt"]:
+                res.count("api-fields:live-tuple")
+                names = [f for f, _ in v["fields"]]
+                if names != live:
+                    res.disagree("model", {"kind": "apifields", "ident": emu.ident, "api": row["api"]}, names, live, None,
+                                 note="the tuple the method returns has other fields than the type of that name")
+                    bad = True
+    return bad
+
+
 # ------------------------------------------------------------------------------ correspondence
 
 
@@ -1180,6 +1529,22 @@ def correspond(ctx, res):
             res.case(("front2", ident) + tuple(sorted((k, str(v)) for k, v in c.items())), nontrivial=True,
                      sample={"case": c, "impl": obs, "model": m.get("model")} if (ident, c["fn"], c.get("cached")) == ("windows", "name", "oldname") and c["native"] == "c20proc" else None)
             judge_front(emu, c, obs, m, res)
+    # ---------------- round 2: identity / equality / signals on the real front end
+    for ident in E.IDENTS:
+        emu = emus[ident]
+        fcs = list(front2_cases(emu, ctx.tier))
+        ran = [run_front2(emu, c) for c in fcs]
+        outs = ctx.driver().batch([ln for _, ln in ran])
+        drv_lines += len(fcs)
+        for c, (obs, _), m in zip(fcs, ran, outs):
+            res.count("family:front-ident-eq-signals")
+            res.count("front3:" + c["fn"])
+            mm = m.get("model", {})
+            res.count("front3-%s:%s" % (c["fn"], mm.get("k") or (mm.get("res") or {}).get("k") or mm.get("act") or mm.get("ret")))
+            res.case(("front3", ident) + tuple(sorted((k, str(v)) for k, v in c.items())), nontrivial=True,
+                     sample={"case": c, "impl": obs, "model": m.get("model")}
+                     if (ident, c["fn"], c.get("errno"), c.get("winerror"), c.get("state"), c.get("ignore")) == ("windows", "ident", "EACCES", 5, "alive", False) and c["pid"] == 42 else None)
+            judge_front2(emu, c, obs, m, res)
     # ---------------- documented API
     outs = ctx.driver().batch([{"op": "api", "plat": i} for i in E.IDENTS])
     drv_lines += len(E.IDENTS)
@@ -1187,6 +1552,13 @@ def correspond(ctx, res):
         res.count("family:api")
         res.case(("api", ident), nontrivial=True)
         judge_api(emus[ident], m, res)
+    outs = ctx.driver().batch([{"op": "apifields", "plat": i} for i in E.IDENTS])
+    drv_lines += len(E.IDENTS)
+    for ident, m in zip(E.IDENTS, outs):
+        if "bad" in m:
+            raise InfraError("driver rejected apifields query: %s" % m)
+        res.case(("apifields", ident), nontrivial=True)
+        judge_api_fields(emus[ident], m, res)
     res.exhaustive = ("the whole single-fault domain described in `rule` (%d cases), every MAC length 1..7 and every "
                       "IPv4 prefix length 0..32; two-fault sequences: %d of the %d of the domain (all at the thorough tier); "
                       "random IPv4 addresses are samples" % (total_fault, total_two, domain_two))
@@ -1232,6 +1604,15 @@ def _rerun(ctx, inp, res):
         obs, ln = run_front(emu, inp)
         m = ctx.driver().batch([ln])[0]
         return judge_front(emu, inp, obs, m, res) and res.disagreements[-1]["kind"] == "spec"
+    if kind == "front3":
+        obs, ln = run_front2(emu, inp)
+        m = ctx.driver().batch([ln])[0]
+        return judge_front2(emu, inp, obs, m, res) and res.disagreements[-1]["kind"] == "spec"
+    if kind == "apifield":
+        m = ctx.driver().batch([{"op": "apifields", "plat": inp["ident"]}])[0]
+        live = T.actual_fields(emu, inp["nt"]) or []
+        return any(r["api"] == inp["api"] and inp["field"] in r["fields"] and inp["field"] not in r["gaps"]
+                   for r in m["documented"]) and inp["field"] not in live
     if kind == "front":
         n0 = len(res.disagreements)
         front_end_pass(emu, res)
